@@ -61,6 +61,10 @@ def make_obs(ctx):
     obs.append(Ob('no-clock:with-base', 'C20_env.c', 'h_base_only', {'PART_CLOCK': 1}, units=DT_UNITS, unwind=50,
                   group='clock', remove_bodies=core.prune_cals(['ymd', 'daisy']),
                   bounds={'input': 'any record without a year, any valid base'}))
+    # added after a missed seed: the time branch of the gate (time-only input, any subset of h/m/s given)
+    obs.append(Ob('no-clock:with-base:time-only', 'C20_env.c', 'h_base_time', {'PART_CLOCK': 1}, units=DT_UNITS, unwind=50,
+                  group='clock', remove_bodies=core.prune_cals(['ymd', 'daisy']),
+                  bounds={'input': 'time-only record with any subset of hour/minute/second given', 'base': 'any valid date, alone or with any time of day'}))
     for (lo, hi) in ([(1969, 2038)] if ctx.tier == 'quick' else core.year_windows_full(400)):
         obs.append(Ob('no-clock:time-of-day-epoch:%d-%d' % (lo, hi), 'C20_env.c', 'h_epoch_with_base', {'PART_CLOCK': 1, 'YLO': lo, 'YHI': hi},
                       units=DT_UNITS, unwind=50, group='clock', remove_bodies=core.prune_cals(['ymd', 'daisy']),
